@@ -28,6 +28,9 @@ def run(repo, run, tier):
     callbacks(repo, run, m)
     dt_integrity(repo, run, m)
     counter_ownership(repo, run)
+    # 'since construction or the last reset': reset() zeroes the counter on every path
+    from .c13 import reset_unconditional
+    reset_unconditional(repo, run, rule_id="C20.6")
 
 
 def who_calls(repo, run):
